@@ -158,7 +158,7 @@ func H14_out_WriteArray() {
 	vhAssume(vhAnd(nbytes >= 0, nbytes <= (K+7)/8+1))
 	bits := vhArb("bits", nbytes)
 	cnt := vhUint("count")
-	vhAssume(cnt <= uint(K))
+	vhAssume(vhAnd(cnt <= uint(K), cnt >= uint(vhParam("minCount", 0))))
 	p := vhU64("probe")
 	a0 := vhAlphaLen(bs, sink)
 	vhAssume(p < a0+uint64(K))
